@@ -50,11 +50,17 @@ pub struct OtiSpec {
     pub inband_fti: bool,
     /// symbol alignment for Raptor/RaptorQ
     pub al: u8,
+    /// number of sub-blocks N for Raptor/RaptorQ
+    #[serde(default = "one_u16")]
+    pub n: u16,
+}
+fn one_u16() -> u16 {
+    1
 }
 
 impl OtiSpec {
     pub fn new(scheme: Scheme, e: u16, b: u16, parity: u16, inband_fti: bool) -> OtiSpec {
-        OtiSpec { scheme, e, b, parity, inband_fti, al: 1 }
+        OtiSpec { scheme, e, b, parity, inband_fti, al: 1, n: 1 }
     }
     pub fn oti(&self) -> Result<Oti, String> {
         let mut o = match self.scheme {
@@ -68,9 +74,9 @@ impl OtiSpec {
             Scheme::Rs28Us => Oti::new_reed_solomon_rs28_under_specified(self.e, self.b, self.parity)
                 .map_err(|e| format!("{:?}", e))?,
             Scheme::RaptorQ => {
-                Oti::new_raptorq(self.e, self.b, self.parity, 1, self.al).map_err(|e| format!("{:?}", e))?
+                Oti::new_raptorq(self.e, self.b, self.parity, self.n, self.al).map_err(|e| format!("{:?}", e))?
             }
-            Scheme::Raptor => Oti::new_raptor(self.e, self.b, self.parity, 1, self.al).map_err(|e| format!("{:?}", e))?,
+            Scheme::Raptor => Oti::new_raptor(self.e, self.b, self.parity, self.n.min(255) as u8, self.al).map_err(|e| format!("{:?}", e))?,
         };
         o.inband_fti = self.inband_fti;
         Ok(o)
